@@ -423,4 +423,119 @@ func TestVerif_C19Conc(t *testing.T) {
 		directedRet++
 	}
 	out.Stat("directed-interleavings-return", directedRet)
+
+	// directed interleavings with both operations in the middle: a Get is parked while it looks at
+	// the first pooled connection (it has left the table lock); a competing operation is started
+	// and, as soon as it looks at or closes a pooled connection itself, is parked in turn until
+	// the Get has finished.  Every wait has a timeout, so on a correct pool nothing blocks.
+	directedMid := 0
+	for ci := 0; ci < n*3; ci++ {
+		r := vNewRand(uint64(1995000 + ci))
+		cfg := Config{MaxKeys: 2, MaxConnsPerKey: 3, MaxConnLifetimeSec: 3600, StaleKeyLifetimeSec: 3600}
+		if r.chance(40) {
+			cfg.StaleKeyLifetimeSec = -1
+		}
+		p := New(cfg)
+		w := &v19World{}
+		logEv := func(s string) { w.mu.Lock(); w.log = append(w.log, s); w.mu.Unlock() }
+		var panics atomic.Int32
+		var closedPool atomic.Bool
+		compet := r.intn(4)
+		getterDone := make(chan struct{})
+		competDone := make(chan struct{})
+		competParked := make(chan struct{})
+		var parkOnce sync.Once
+		park := func() {
+			parkOnce.Do(func() { close(competParked) })
+			select {
+			case <-getterDone:
+			case <-time.After(3 * time.Millisecond):
+			}
+		}
+		conns := []*v19Conn{
+			{w: w, id: 0, conc: true, bad: r.chance(70)},
+			{w: w, id: 1, conc: true, bad: r.chance(20)},
+			{w: w, id: 2, conc: true},
+		}
+		conns[0].onUsable = func() {
+			go func() {
+				defer close(competDone)
+				defer func() {
+					if e := recover(); e != nil {
+						panics.Add(1)
+					}
+				}()
+				switch compet {
+				case 0:
+					p.CleanUp(ctx)
+				case 1:
+					p.Close()
+					closedPool.Store(true)
+					logEv("EShutdown")
+				case 2:
+					x := &v19Conn{w: w, id: 100, conc: true}
+					logEv(fmt.Sprintf("EGot %s %s", cN(9), cN(100)))
+					logEv(fmt.Sprintf("ERet %s %s", cN(9), cN(100)))
+					p.Return("k", x)
+				case 3:
+					c2, _ := p.Get(ctx, "k")
+					if c2 != nil {
+						logEv(fmt.Sprintf("EGot %s %s", cN(8), cN(c2.(*v19Conn).id)))
+						logEv(fmt.Sprintf("EUse %s %s", cN(8), cN(c2.(*v19Conn).id)))
+					}
+				}
+			}()
+			select {
+			case <-competDone:
+			case <-competParked:
+			case <-time.After(3 * time.Millisecond):
+			}
+		}
+		for _, c := range conns[1:] {
+			c.onUsable = park
+			c.onClose = park
+		}
+		for _, c := range conns {
+			logEv(fmt.Sprintf("EGot %s %s", cN(1), cN(c.id)))
+			logEv(fmt.Sprintf("ERet %s %s", cN(1), cN(c.id)))
+			p.Return("k", c)
+		}
+		go func() {
+			defer close(getterDone)
+			defer func() {
+				if e := recover(); e != nil {
+					panics.Add(1)
+				}
+			}()
+			c, _ := p.Get(ctx, "k")
+			if c != nil {
+				logEv(fmt.Sprintf("EGot %s %s", cN(2), cN(c.(*v19Conn).id)))
+				logEv(fmt.Sprintf("EUse %s %s", cN(2), cN(c.(*v19Conn).id)))
+			}
+		}()
+		stuck := false
+		for _, ch := range []chan struct{}{getterDone, competDone} {
+			select {
+			case <-ch:
+			case <-time.After(3 * time.Second):
+				stuck = true
+			}
+		}
+		if !stuck && !closedPool.Load() {
+			fin := make(chan struct{})
+			go func() { p.Close(); close(fin) }()
+			select {
+			case <-fin:
+			case <-time.After(3 * time.Second):
+				stuck = true
+			}
+		}
+		time.Sleep(500 * time.Microsecond)
+		w.mu.Lock()
+		lg := cList(w.log)
+		w.mu.Unlock()
+		out.Case(fmt.Sprintf("CConc %s %s %s", lg, cN(int(panics.Load())), cBool(stuck)))
+		directedMid++
+	}
+	out.Stat("directed-interleavings-mid", directedMid)
 }
